@@ -4,6 +4,7 @@ package conc
 
 import (
 	"bytes"
+	"context"
 	"encoding/gob"
 	"encoding/json"
 	"fmt"
@@ -141,6 +142,7 @@ func scenarios() []scenario {
 	ck := func(src string) threadSpec { return threadSpec{Mode: "check", Src: src} }
 	return []scenario{
 		{"check2-AB", []threadSpec{ck(progA), ck(progB)}},
+		{"check2-AA", []threadSpec{ck(progA), ck(progA)}},
 		{"exec2-AB", []threadSpec{ex(false, progA), ex(false, progB)}},
 		{"exec2-AA", []threadSpec{ex(false, progA), ex(false, progA)}},
 		{"check-exec-BC", []threadSpec{ck(progB), ex(false, progC)}},
@@ -402,7 +404,7 @@ func ChildMain(args []string) {
 		}
 		o := sched.Run(ch, 200000, bodies...)
 		for i := range ch.points {
-			if pt := &ch.points[i]; pt.obj != 0 {
+			if pt := &ch.points[i]; pt.obj != 0 && os.Getenv("VERIF_C36_NOPOR") == "" {
 				pt.Shared = sched.ConflictAfter(pt.seq, pt.tid, pt.obj, pt.write)
 			}
 		}
@@ -614,13 +616,25 @@ type c36Case struct {
 	Warm     bool   `json:"warm,omitempty"`
 }
 
+// childExtraEnv is set (between explorations, never during one) to pass options to the children.
+var childExtraEnv []string
+
+// childTimeout bounds one child execution (normally 0.3-1 s): a child that is still running after this
+// long is killed and reported as non-terminating (three orders of magnitude of slack).
+const childTimeout = 10 * time.Minute
+
 func runChild(bin string, args ...string) (*childOut, string, error) {
-	cmd := exec.Command(bin, append([]string{"--child"}, args...)...)
-	cmd.Env = append(os.Environ(), "GOMAXPROCS=1")
+	ctx, cancel := context.WithTimeout(context.Background(), childTimeout)
+	defer cancel()
+	cmd := exec.CommandContext(ctx, bin, append([]string{"--child"}, args...)...)
+	cmd.Env = append(append(os.Environ(), "GOMAXPROCS=1", "GOGC=off"), childExtraEnv...)
 	var so, se bytes.Buffer
 	cmd.Stdout, cmd.Stderr = &so, &se
 	err := cmd.Run()
 	if err != nil {
+		if ctx.Err() != nil {
+			return nil, "child did not terminate within " + childTimeout.String() + "\n" + se.String(), err
+		}
 		return nil, se.String(), err
 	}
 	var out childOut
@@ -659,6 +673,19 @@ func prepareLedger(dir string) string {
 	return path
 }
 
+func prepareLedgerInChild(bin, dir string) (string, error) {
+	ctx, cancel := context.WithTimeout(context.Background(), childTimeout)
+	defer cancel()
+	cmd := exec.CommandContext(ctx, bin, "--child", "mkledger", dir)
+	var se bytes.Buffer
+	cmd.Stderr = &se
+	out, err := cmd.Output()
+	if err != nil {
+		return "", fmt.Errorf("%v: %s", err, trunc(se.String(), 800))
+	}
+	return strings.TrimSpace(string(out)), nil
+}
+
 type baseline struct {
 	results []string
 }
@@ -671,10 +698,25 @@ func runC36(env *mc.Env) {
 		return
 	}
 	defer os.RemoveAll(tmp)
-	ledger := prepareLedger(tmp)
+	// the ledger (contract C deployed) is prepared by a child process too, so that a change to the code under
+	// test that makes even sequential deployment hang or crash cannot hang this parent
+	ledger, lerr := prepareLedgerInChild(bin, tmp)
+	if lerr != nil {
+		env.R.HarnessError("sequential deployment of the shared contract failed (not a concurrency matter): %v", lerr)
+		return
+	}
+	if st, err := explorerSelfTest(); err != nil {
+		env.R.HarnessError("%v", err)
+		return
+	} else {
+		env.R.Set("explorer_selftest", map[string]any{"lost_update_found_at_bound": 1, "deadlock_found_at_bound": 1,
+			"schedules_bound0": st.Schedules0, "schedules_bound1": st.Schedules1,
+			"note": "toy lost-update and lock-order-inversion protocols on the same shim primitives: not found with 0 preemptions, found with 1"})
+	}
 	scs := scenarios()
-	bound := 1 // cold (one process per execution) preemption bound; bound 2 is ~10^5 processes per scenario
-	nsc := mc.Pick(env, 2, len(scs))
+	bound := 1                       // cold (one process per execution) preemption bound; bound 2 is ~10^5 processes per scenario
+	nsc := mc.Pick(env, 1, len(scs)) // cold scenarios (one process per execution, ~12 executions/s on 16 cores)
+	nWarm := mc.Pick(env, 4, 5)      // warm scenarios (in-process)
 	warmBound := mc.Pick(env, 1, 2)
 	env.R.Set("preemption_bound_cold", bound)
 	env.R.Set("preemption_bound_warm", warmBound)
@@ -711,17 +753,59 @@ func runC36(env *mc.Env) {
 			break
 		}
 		// warm phase: deeper bound, in-process (process-global caches warm, per-execution objects cold)
-		if wb := warmBound; !env.Expired() && (!env.Thorough() || si < 4) {
+		if wb := warmBound; false {
 			if warmPhase(env, bin, tmp, si, sc, ledger, base, wb) {
 				warmCompleted = append(warmCompleted, fmt.Sprintf("%s<=%d", sc.Name, wb))
 			}
 		}
 	}
+	for si := 0; si < nWarm && !env.Expired(); si++ {
+		sc := scs[si]
+		base := make([]string, len(sc.Threads))
+		ok := true
+		for ti := range sc.Threads {
+			o, _, err := runChild(bin, "seq", strconv.Itoa(si), ledger, strconv.Itoa(ti))
+			if err != nil || strings.HasPrefix(o.Results[0], "ERR") || strings.HasPrefix(o.Results[0], "PANIC") || strings.HasPrefix(o.Results[0], "CHECK-ERR") {
+				env.R.HarnessError("baseline %s/%d failed", sc.Name, ti)
+				ok = false
+				break
+			}
+			base[ti] = o.Results[0]
+		}
+		if ok && warmPhase(env, bin, tmp, si, sc, ledger, base, warmBound) {
+			warmCompleted = append(warmCompleted, fmt.Sprintf("%s<=%d", sc.Name, warmBound))
+		}
+	}
 	env.R.Set("warm_scenarios_completed", warmCompleted)
+	// thorough tier: one scenario once more WITHOUT the partial-order reduction (a preemption before every
+	// synchronization operation). The reduction assumes data-race freedom; without it the scheduler itself can
+	// expose a lazily initialised structure that is published before it is filled, if the filling crosses a
+	// synchronization operation.
+	if env.Thorough() && !env.Expired() {
+		si := 1
+		sc := scs[si]
+		base := make([]string, len(sc.Threads))
+		ok := true
+		for ti := range sc.Threads {
+			o, _, err := runChild(bin, "seq", strconv.Itoa(si), ledger, strconv.Itoa(ti))
+			if err != nil {
+				ok = false
+				break
+			}
+			base[ti] = o.Results[0]
+		}
+		if ok {
+			childExtraEnv = []string{"VERIF_C36_NOPOR=1"}
+			if exploreSchedules(env, bin, si, sc, ledger, base, bound, &totalRuns, &totalPoints) {
+				env.R.Set("no_reduction_scenario_completed", fmt.Sprintf("%s<=%d (every synchronization operation is a preemption point)", sc.Name, bound))
+			}
+			childExtraEnv = nil
+		}
+	}
 	env.R.Set("scenarios_completed", completed)
 	env.R.BoundCompleted(fmt.Sprintf("preemptions<=%d on %d scenarios", bound, len(completed)))
 	env.R.Set("schedule_points_total", totalPoints.Load())
-	racePass(env, ledger, nsc)
+	racePass(env, ledger, mc.Pick(env, 4, len(scs)))
 }
 
 func exploreSchedules(env *mc.Env, bin string, si int, sc scenario, ledger string, base []string, bound int,
@@ -732,7 +816,11 @@ func exploreSchedules(env *mc.Env, bin string, si int, sc scenario, ledger strin
 	active := 0
 	complete := true
 	var wg sync.WaitGroup
-	for w := 0; w < env.Workers; w++ {
+	nw := env.Workers
+	if nw > 10 {
+		nw = 10 // process start-up does not scale beyond ~8-10 parallel children on this class of machine
+	}
+	for w := 0; w < nw; w++ {
 		wg.Add(1)
 		go func() {
 			defer wg.Done()
@@ -960,7 +1048,7 @@ func racePass(env *mc.Env, ledger string, nsc int) {
 		env.R.Set("race_pass", "skipped: no -race binary at "+raceBin)
 		return
 	}
-	reps := mc.Pick(env, 4, 40)
+	reps := mc.Pick(env, 8, 60)
 	type job struct{ si, rep, procs int }
 	var jobs []job
 	for si := 0; si < nsc; si++ {
@@ -1003,9 +1091,8 @@ func raceSignature(report string) string {
 	for i, ln := range lines {
 		if (strings.HasPrefix(ln, "Write at") || strings.HasPrefix(ln, "Read at") || strings.HasPrefix(ln, "Previous write at") || strings.HasPrefix(ln, "Previous read at")) && i+1 < len(lines) {
 			f := strings.TrimSpace(lines[i+1])
-			if k := strings.Index(f, "("); k > 0 {
-				f = f[:k]
-			}
+			f = strings.TrimSuffix(f, "()")
+			f = strings.TrimPrefix(f, "github.com/onflow/cadence/")
 			fns = append(fns, f)
 		}
 	}
@@ -1021,7 +1108,10 @@ func replayC36(env *mc.Env, raw json.RawMessage) (bool, string) {
 	bin, _ := os.Executable()
 	tmp, _ := os.MkdirTemp("", "c36r")
 	defer os.RemoveAll(tmp)
-	ledger := prepareLedger(tmp)
+	ledger, lerr := prepareLedgerInChild(bin, tmp)
+	if lerr != nil {
+		return false, "ledger preparation failed: " + lerr.Error()
+	}
 	sc := scenarios()[c.Scenario]
 	base := make([]string, len(sc.Threads))
 	for ti := range sc.Threads {
